@@ -284,8 +284,11 @@ def crit_chains(rng, count):
         sc = _mk(rng, shape, crit=crit, out=outc,
                  dur=[rng.choice([0, 1, 1, 2]) if i in jobs else 0 for i in range(n)],
                  tmo=[rng.choice([-1, -1, -1, 0, 1, 2]) if kind[i] == "sched" else -1 for i in range(n)],
+                 # critical and forever at once, on jobs and on nested schedulers
+                 forever=[False] + [rng.random() < 0.25 for _ in range(n - 1)],
                  pure=rng.random() < 0.3)
-        out.append(sc)
+        if admissible(sc["cfg"]):
+            out.append(sc)
     return out
 
 
@@ -572,6 +575,7 @@ def scenarios(prop, count, seed):
         hrn["emptymsg"] = rng.random() < 0.3
         hrn["rterr"] = rng.random() < 0.3
         hrn["lateattr"] = rng.random() < 0.2
+        hrn["awaitable"] = rng.random() < 0.2
         hrn["watch"] = rng.random() < 0.2       # schedulers are given a Watch (debug time display)
         # now and then the caller cancels the whole run from outside
         if rng.random() < {"C11": 0.15, "C13": 0.08, "C05": 0.05}.get(prop, 0.03):
